@@ -84,8 +84,18 @@ def gen(seed, tier):
         elif y < 0.88:
             # ids allocated *inside* a two-phase commit (as a connection
             # does for new objects), which then commits or aborts
-            ops.append(['txn_oids', r.randint(1, 3), r.randint(0, 3),
-                        r.choice(('commit', 'abort', 'abort', 'abortV'))])
+            if r.random() < 0.4:
+                # records stored under caller-chosen ids above the counter
+                # (a copy in progress) while ids are allocated: between
+                # the stores and the finish
+                ops.append(['txn_foreign',
+                            [r.choice((1, 2, 3, 5, 8)) for _ in
+                             range(r.randint(1, 3))], r.randint(1, 5),
+                            r.choice(('commit', 'commit', 'abortV'))])
+            else:
+                ops.append(['txn_oids', r.randint(1, 3), r.randint(0, 3),
+                            r.choice(('commit', 'abort', 'abort',
+                                      'abortV'))])
         elif y < 0.94:
             ops.append(['reopen'])
         else:
@@ -249,6 +259,42 @@ def run_hist(case):
                         st.tpc_finish(t)
                         tr.present.update(mine[:op[2]])
                 tr.trace.append('txn_oids-' + op[3])
+            elif k == 'txn_foreign':
+                # ids just above everything issued / present so far
+                top = max([u64(o) for o in tr.issued_set | tr.present]
+                          or [0])
+                want = []
+                for d_ in op[1]:
+                    top += d_
+                    want.append(p64(top))
+                t = TransactionMetaData(b'', b'', {})
+                st.tpc_begin(t)
+                try:
+                    for oid in want:
+                        st.store(oid, z64, rec(nxt()), '', t)
+                except ConflictError:
+                    st.tpc_abort(t)
+                    tr.trace.append('txn_foreign-conflict')
+                    continue
+                window = []
+                for _ in range(op[2]):
+                    oid = st.new_oid()
+                    tr.got(oid)
+                    window.append(oid)
+                if op[3] == 'commit':
+                    st.tpc_vote(t)
+                    st.tpc_finish(t)
+                    tr.present.update(want)
+                    clash = sorted(set(window) & set(want))
+                    if clash:
+                        tr.flag('oid-exists', 'new_oid returned %r while a '
+                                'record under that id was being committed '
+                                '(stored, not yet finished): it now '
+                                'identifies that object' % clash[0])
+                else:
+                    st.tpc_vote(t)
+                    st.tpc_abort(t)
+                tr.trace.append('txn_foreign-' + op[3])
             elif k == 'reopen':
                 if kind == 'file':
                     st.close()
